@@ -642,6 +642,37 @@ fn os_level(ctx: &Ctx, rep: &Report, pkgs: &[(String, Vec<u8>)]) {
             }
         }
     }
+    // a main header far above any buffer size (34 MiB; rpm itself takes up to 256 MiB): the result of
+    // parsing must not depend on whether the source hands it over in one piece
+    if !ctx.is_dbg() {
+        let mut cfg = BuildCfg { name: "hugehdr".into(), version: "1".into(), license: "MIT".into(), arch: "noarch".into(), summary: "huge header".into(), compression: Some(("none".into(), 0)), source_date: Some(1_600_000_000), ..Default::default() };
+        cfg.description = Some("0123456789abcdef".repeat((34 << 20) / 16));
+        if let Ok(Ok(bytes)) = guard(|| build(&cfg, &dir).and_then(|p| pkg_bytes(&p))) {
+            let want = Package::parse(&mut &bytes[..]);
+            let w = json!({"package": "built-34MiB-header", "os_level": "huge-header"});
+            let f = dir.join("huge.rpm");
+            let _ = std::fs::write(&f, &bytes);
+            let ways: Vec<(&str, Box<dyn Fn() -> Result<Package, rpm::Error> + '_>)> = vec![
+                ("BufReader(8 KiB) over a slice", Box::new(|| Package::parse(&mut io::BufReader::with_capacity(8192, &bytes[..])))),
+                ("BufReader(1 MiB) over a slice", Box::new(|| Package::parse(&mut io::BufReader::with_capacity(1 << 20, &bytes[..])))),
+                ("4096-byte reads", Box::new(|| Package::parse(&mut Source::new(&bytes, Chunk::Fixed(4096), None)))),
+                ("Package::open on a file", Box::new(|| Package::open(&f))),
+            ];
+            for (how, way) in ways {
+                rep.eval(1);
+                match guard(|| way()) {
+                    Err(p) => rep.violation(format!("panic:parse:{}", p.site()), format!("[34 MiB header] {how}: {}", p.message), w.clone(), 0),
+                    Ok(g) => {
+                        if !same_result(&g, &want) {
+                            rep.violation("read:huge-header-differs", format!("[34 MiB header] {how} gives {} but the contiguous bytes give {}", show(&g), show(&want)), w.clone(), 0);
+                        } else {
+                            rep.count("os.huge_header.same_result", 1);
+                        }
+                    }
+                }
+            }
+        }
+    }
     let _ = std::fs::remove_dir_all(&dir);
 }
 
